@@ -101,6 +101,8 @@ class CallGraph:
                 base = repo.resolve_expr(fi, n.value)
                 if base.kind in ("module", "external", "value"):
                     continue
+                if base.kind == "local" and _plain_container_local(base):
+                    continue  # a list/dict/tuple built in this function: builtin item access
                 dunder = {ast.Load: "__getitem__", ast.Store: "__setitem__", ast.Del: "__delitem__"}[type(n.ctx)]
                 for m in self.methods_by_name.get(dunder, ()):
                     self._add(fi, m, n)
@@ -195,6 +197,21 @@ class CallGraph:
 
     def callers(self, key):
         return [k for k, v in self.edges.items() if key in v]
+
+
+def _plain_container_local(ref):
+    """is every definition of this local a list/dict/set/tuple display, comprehension, or list()/dict()/tuple()/sorted() call?"""
+    if not ref.entries:
+        return False
+    for kind, val in ref.entries:
+        if kind != "assign" or not isinstance(val, ast.AST):
+            return False
+        if isinstance(val, (ast.List, ast.Dict, ast.Set, ast.Tuple, ast.ListComp, ast.DictComp, ast.SetComp)):
+            continue
+        if isinstance(val, ast.Call) and isinstance(val.func, ast.Name) and val.func.id in ("list", "dict", "set", "tuple", "sorted", "zip", "enumerate"):
+            continue
+        return False
+    return True
 
 
 def _is_type_test_arg(n):
